@@ -76,7 +76,7 @@ func runC04(c *Ctx) {
 		start, kf := T(F("Start")), T(F("Keyframe"))
 		sidAlts := map[string][]guardAlt{
 			"layer.wantedSid": {{"wanted layer at the first packet of a keyframe", []*Fact{start, kf}}},
-			"flags.Sid": {{"new top layer while at the top, not limited", []*Fact{mkFact(true, "lt", L("maxSid"), F("Sid")), mkFact(true, "eq", L("sid"), L("maxSid")), mkFact(false, "true", L("limitSid"), nil)}}},
+			"flags.Sid":       {{"new top layer while at the top, not limited", []*Fact{mkFact(true, "lt", L("maxSid"), F("Sid")), mkFact(true, "eq", L("sid"), L("maxSid")), mkFact(false, "true", L("limitSid"), nil)}}},
 		}
 		tidAlts := map[string][]guardAlt{
 			"layer.wantedTid": {
